@@ -14,7 +14,7 @@ import vlib
 MC_SCHED = {"quick": dict(Workers="{1, 2, 3}", MaxRows=4), "thorough": dict(Workers="{1, 2, 3}", MaxRows=5)}
 MC_HASH = {"quick": dict(Labels="{0, 1, 2}", MaxW=2), "thorough": dict(Labels="{0, 1, 2, 3}", MaxW=2)}
 GEN = {"quick": dict(MaxLatN=3, MaxX=1, MaxL=2, Seeds="{1, 2}", Tier='"quick"'),
-       "thorough": dict(MaxLatN=4, MaxX=1, MaxL=2, Seeds="{1, 2, 3}", Tier='"thorough"')}
+       "thorough": dict(MaxLatN=4, MaxX=2, MaxL=2, Seeds="{1, 2, 3}", Tier='"thorough"')}
 SCHED_INVS = ["InvBarrier", "InvCells", "InvReduce", "InvCaller"]
 SCHED_ACTIONS = ["SBegin", "SWrite", "SBarrier", "SRedBegin", "SRedRow", "SRedEnd", "SSum"]
 HASH_INVS = ["InvModal", "InvSum"]
